@@ -477,6 +477,22 @@ def run(tier: str, seed: int) -> Result:
                 big_evals += 1
             if conn_fp(w) != before or probe.calls or w.loop.errors:
                 res.add(f"undefined:{t}", f"frame with undefined (large) type {t} had an effect", {"harness": "c12-id", "noise": False, "type": t, "payload": "empty"})
+        # large frames (plaintext carries its length as a varint: nothing limits it to 16 bit)
+        pb = env.pb()
+        for size in (65535, 65536, 70000, 300000):
+            if w.conn.connection_state.name != "CONNECTED":
+                break
+            del probe.calls[:]
+            before = conn_fp(w)
+            img = pb.CameraImageResponse(key=3, data=bytes(size), done=True)
+            w.io_chunk(w.sock, raw_frame(w, 9999, bytes(size)) + w.dframe(img) + w.dframe(mk("SensorStateResponse", key=1, state=2.0)))
+            w.drain()
+            big_evals += 2
+            got = [type(m).__name__ for m in probe.calls]
+            if got != ["CameraImageResponse", "SensorStateResponse"] or len(probe.calls[0].data) != size:
+                res.add(f"large:{size}", f"a {size}-byte frame of undefined type followed by a {size}-byte CameraImageResponse and a state: "
+                        f"subscribers got {got}, connection {w.conn.connection_state.name}", {"harness": "c12-id", "noise": False, "type": 9999, "payload": f"{size} bytes"})
+            del before
     finally:
         w.close()
     for o in outs_a + outs_b + outs_c:
